@@ -342,9 +342,9 @@ PROPS["C01"] = {
     "outside": ["chains (only the one-step equations above are decided; supply over a history follows by induction on these steps); sums over more elements than the harness shapes; block intervals other than 10 minutes in the subsidy schedule"],
     "stubs": SEQ_CUTS, "assumptions": SEQ_ASSUME,
 }
-for pid, txt in [("C01", "conservation equations on the diffs produced by the real validation+application code"), ("C02", "no second use of an element inside one block"),
-                 ("C03", "accepted => authorised by the right keys over this very content"), ("C07", "contract revision/resolution rules against an independent specification"),
-                 ("C08", "accepted => height bound respected (exact operand and comparison), acceptance at the bound reachable")]:
+for pid, txt in [("C01", "conservation equations on the diffs produced by the real validation+application code (v1 and v2 transactions, siafund claims, miner payouts, block issuance)"), ("C02", "no second use of an element inside one block"),
+                 ("C03", "accepted => authorised by the right keys over this very content"), ("C07", "contract revision/resolution rules (v1 and v2) against an independent specification; v1 and v2 storage-proof verification complete and sound against a plain Merkle tree over a symbolic file"),
+                 ("C08", "accepted => height bound respected (exact operand and comparison), and acceptance exactly at each bound is reachable (an exhaustive exploration that cannot reach it is a violation)")]:
     MANIFEST_TEXT[pid] = {
         "text": "Bounded model checking, inductive step: from an arbitrary symbolic state (network parameters, heights, pool, accumulator roots) satisfying the stated representation invariant, the real ValidateTransaction / ValidateV2Transaction and MidState.Apply* are executed symbolically on fully symbolic transactions of small shapes (one to three transactions of one block) and the solver decides: " + txt + ". Counterexamples are concrete transactions/states; those depending on hash or signature values are reported as symbolic-only.",
         "note": "Trusted: ideal hash/signature, z3 (bit-vector and linear-integer renderings), engine, the listed summaries (weight, tax, storage-proof index, 128-bit currency lifting). Shapes as in evidence.bounds; chains are covered only through the invariant.",
